@@ -1,6 +1,7 @@
 import IV.Lemmas.TextFormats
 import IV.Lemmas.TextFormats2
 import IV.Gen.Matchers
+import IV.Gen.IniChars
 /-!
 C15 — shared text-format helpers recover the data that was rendered.
 
@@ -707,5 +708,112 @@ example : iniLookup (buildDict false [⟨"a".toList, [⟨"k".toList, some "1".to
       ⟨"a".toList, [⟨"K".toList, some "2".toList⟩]⟩]) "a".toList "k".toList = some (some "2".toList) ∧
     iniLookup (buildDict false [⟨"a".toList, [⟨"k".toList, some "1".toList⟩, ⟨"j".toList, some "x".toList⟩]⟩, ⟨"b".toList, []⟩,
       ⟨"a".toList, [⟨"K".toList, some "2".toList⟩]⟩]) "a".toList "j".toList = some (some "x".toList) := by decide
+
+/-! ### INI documents: names over the whole alphabet of the grammar -/
+
+def printableAscii : List Char := (List.range 95).map (fun i => Char.ofNat (i + 32))
+
+/-- the character sets of the UNCHANGED grammar, written from first principles: header characters are
+    the printable ASCII characters (blank included) except `[` `]`; key characters are those except the
+    separators `=` `:`; value characters are printable ASCII plus TAB, VT, FF; `#` and `;` start comments -/
+def specAlphabet : IniAlphabet :=
+  { header := printableAscii.filter (fun c => c ≠ '[' ∧ c ≠ ']'),
+    key := printableAscii.filter (fun c => c ≠ '[' ∧ c ≠ ']' ∧ c ≠ '=' ∧ c ≠ ':'),
+    sep := [':', '='],
+    value := [Char.ofNat 9, Char.ofNat 11, Char.ofNat 12] ++ printableAscii,
+    comment := ['#', ';'] }
+
+/-- the alphabet regenerated from the live source IS that alphabet (a change of `key_chars`,
+    `header_chars`, `sep_chars`, `value_chars` or of the comment starters breaks this obligation) -/
+theorem ini_alphabet_spec : IV.Gen.IniChars.alphabet = specAlphabet := by decide
+
+theorem ini_alphabet_ok : IniAlphaOk IV.Gen.IniChars.alphabet := by
+  rw [ini_alphabet_spec]
+  refine ⟨by decide, by decide, by decide, by decide, by decide, by decide, by decide, ?_⟩
+  intro c h
+  have : c = ':' ∨ c = '=' := by simpa [specAlphabet] using h
+  rcases this with rfl | rfl <;> decide
+
+/-- EVERY printable ASCII character other than `[ ] = :` is a key character — `;`, `#`, `%`, `/`, `(`, `)`,
+    `@`, `!`, `*`, `?`, `+`, quotes, blank … — and may stand at any position of an option name -/
+theorem key_char_admitted (c : Char) (h1 : 32 ≤ c.toNat) (h2 : c.toNat ≤ 126)
+    (h3 : c ≠ '[' ∧ c ≠ ']' ∧ c ≠ '=' ∧ c ≠ ':') : IV.Gen.IniChars.alphabet.key.contains c = true := by
+  rw [ini_alphabet_spec]
+  have hm : c ∈ printableAscii := by
+    unfold printableAscii
+    apply List.mem_map.mpr
+    refine ⟨c.toNat - 32, by simp; omega, ?_⟩
+    have : c.toNat - 32 + 32 = c.toNat := by omega
+    rw [this]; exact Char.ofNat_toNat c
+  simp only [specAlphabet, List.contains_eq_mem, List.mem_filter, hm, true_and, decide_eq_true_eq]
+  simpa using h3
+
+/-- a rendered `name = value` / `name: value` line, with a name over the whole key alphabet (a comment
+    starter or `[` only not in first position), is read back as exactly that option with exactly that
+    value: it cannot vanish into a value-less option plus a comment -/
+theorem ini_option_line_readback (n v : Str) (s1 s2 : Nat) (sep : Char)
+    (hn : OptNameOk IV.Gen.IniChars.alphabet n) (hsep : IV.Gen.IniChars.alphabet.sep.contains sep = true)
+    (hv : IniValOk IV.Gen.IniChars.alphabet v) :
+    classifyIniLine IV.Gen.IniChars.alphabet (renderIniItem (.opt n s1 sep s2 v)) = .opt ⟨n, some v⟩ (!v.isEmpty) :=
+  (classify_opt_line _ ini_alphabet_ok n v s1 s2 sep hn hsep hv).1
+
+example : classifyIniLine IV.Gen.IniChars.alphabet "max;size = a;b ;c".toList
+      = .opt ⟨"max;size".toList, some "a;b ;c".toList⟩ true ∧
+    classifyIniLine IV.Gen.IniChars.alphabet "comment # in key: value".toList
+      = .opt ⟨"comment # in key".toList, some "value".toList⟩ true := by decide
+
+/-- a comment line — blanks in front or not, whatever it contains — is never an option -/
+theorem ini_comment_line_never_option (semi : Bool) (text : Str) (indent : Nat) :
+    classifyIniLine IV.Gen.IniChars.alphabet (renderIniItem (.comment semi text indent)) = .comment :=
+  classify_comment_line _ ini_alphabet_ok semi text indent
+
+/-- FULL statement: a rendered document — comment lines with any indentation — is read back as its
+    sections and options.  False of the current code (indented comments join the preceding value). -/
+def IniItemOkAnyIndent (A : IniAlphabet) : IniItem → Prop
+  | .comment _ _ _ => True
+  | it => IniItemOk A it
+
+def IniReadbackFull : Prop :=
+  ∀ doc : List IniItem, (∀ it ∈ doc, IniItemOkAnyIndent IV.Gen.IniChars.alphabet it) →
+    (∀ l ∈ renderIni doc, asciiReplace l = l) →
+    parseIni IV.Gen.IniChars.alphabet (renderIni doc) = iniTreeOf doc
+
+/-- the part that holds: with comment lines starting in column 0, every document over the whole
+    alphabet is read back exactly — sections, options, values, order -/
+theorem ini_readback_partial (doc : List IniItem) (hdoc : ∀ it ∈ doc, IniItemOk IV.Gen.IniChars.alphabet it)
+    (hascii : ∀ l ∈ renderIni doc, asciiReplace l = l) :
+    parseIni IV.Gen.IniChars.alphabet (renderIni doc) = iniTreeOf doc := by
+  unfold parseIni iniTreeOf
+  have : (renderIni doc).map asciiReplace = renderIni doc := by
+    conv => rhs; rw [← List.map_id (renderIni doc)]
+    apply List.map_congr_left
+    intro l hl; simp [hascii l hl]
+  rw [this]
+  exact iniLinesGo_render _ ini_alphabet_ok doc none [] none hdoc
+
+/-- known finding ini-indented-comment-joins-value: `[s]`, `k = v`, `   ; c = 1` -/
+def indentedCommentDoc : List IniItem :=
+  [.sec 0 "s".toList 0, .opt "k".toList 1 '=' 1 "v".toList, .comment true " c = 1".toList 3]
+
+theorem ini_indented_comment_witness :
+    parseIni IV.Gen.IniChars.alphabet (renderIni indentedCommentDoc)
+      = some [⟨"s".toList, [⟨"k".toList, some "v ; c = 1".toList⟩]⟩] ∧
+    iniTreeOf indentedCommentDoc = some [⟨"s".toList, [⟨"k".toList, some "v".toList⟩]⟩] := by decide
+
+theorem ini_readback_full_false : ¬ IniReadbackFull := by
+  intro h
+  have hs : Stripped ['s'] := ⟨by intro c hc; simp at hc; subst hc; decide, by intro c hc; simp at hc; subst hc; decide⟩
+  have hk : Stripped ['k'] := ⟨by intro c hc; simp at hc; subst hc; decide, by intro c hc; simp at hc; subst hc; decide⟩
+  have := h indentedCommentDoc (by
+    intro it hit
+    simp only [indentedCommentDoc, List.mem_cons, List.mem_nil_iff, or_false] at hit
+    rcases hit with rfl | rfl | rfl
+    · exact ⟨by decide, hs, by intro c hc; simp at hc; subst hc; decide⟩
+    · refine ⟨⟨by decide, hk, by intro c hc; simp at hc; subst hc; decide, by intro c hc; simp at hc; subst hc; decide⟩, by decide, ?_⟩
+      exact ⟨by intro c hc; simp at hc; subst hc; decide, by decide, by intro c hc; simp at hc; subst hc; decide,
+             by intro c hc; simp at hc; subst hc; decide⟩
+    · trivial) (by decide)
+  rw [ini_indented_comment_witness.1, ini_indented_comment_witness.2] at this
+  revert this; decide
 
 end IV.TextFormats
